@@ -31,11 +31,20 @@ META = {
             "k-th read failed with every error code 2..8 (inner positions of the 102/202-chunk files: 3 (quick) / "
             "5 (thorough) write and 2/4 read statuses), k-th and all later reads failing with each code "
             "(persistent failure, prefetching transfers), k-th read cut to 3 or 1 bytes or answered "
-            "with an ATTRS packet, every read short, stat failing.  Oracle: the call raises, or destination bytes "
+            "with an ATTRS packet, every read short, stat failing.  [copy-block dimension] sizes 32768, 32769, 65543 with "
+            "the unscaled 32768-byte request size (1, 2, 3 non-empty iterations of the 32768-byte copy loop) x all "
+            "operations/options/timings x {no fault, every k-th write rejected / read failed / read cut short / wrong "
+            "response type / reads failing onward, stat failing}.  [size-hint dimension] announced size != source "
+            "size, announced in {0, 1, half, size-1, size+1, 2*size+1}: putfo(file_size=announced) x source "
+            "granularity, and get/getfo from a server whose stat() reports the announced size while its reads "
+            "deliver the whole file (file grown/shrunk between stat and read, stale attributes), all sizes incl. "
+            "the multi-block ones, no other fault.  Oracle: the call raises, or destination bytes "
             "== source bytes and the reported size is right; rejected pipelined write => exception by close().",
     "note": "SFTP_EOF is not injected on reads (indistinguishable from a shorter file); close cannot be made to fail "
             "through SFTPServerInterface; one fault per execution (the persistent read failure repeats the same "
-            "status for every later read); default deterministic schedule",
+            "status for every later read); default deterministic schedule; put() cannot be given a wrong size (it stats "
+            "the local file itself) - covered through putfo; the multi-block sizes run with "
+            "SFTPFile.MAX_REQUEST_SIZE = 32768 (paramiko's default), everything else with 8",
     "design_ref": "4/C29",
 }
 NAME = "remote.bin"
@@ -51,6 +60,18 @@ ALL_WRITE_STATUSES = [SFTP_EOF, SFTP_NO_SUCH_FILE, SFTP_PERMISSION_DENIED, SFTP_
                       SFTP_NO_CONNECTION, SFTP_CONNECTION_LOST, SFTP_OP_UNSUPPORTED]
 ALL_READ_STATUSES = [st for st in ALL_WRITE_STATUSES if st != SFTP_EOF]
 CHUNK = 8
+# [copy-block dimension] _transfer_with_callback copies in blocks of 32768 bytes (not configurable), so with 8-byte
+# requests every file above is moved by ONE non-empty iteration of the copy loop.  These sizes are transferred
+# with the unscaled request size (32768): exactly one block, one block + 1 byte, two blocks + 7 bytes.
+BLOCK = 32768
+MULTI_BLOCK_SIZES = [BLOCK, BLOCK + 1, 2 * BLOCK + 7]
+
+
+def size_variants(size):
+    """[size-hint dimension] sizes announced for a transfer of `size` bytes that differ from it: zero, 1, half,
+    one less, one more, more than twice (putfo's file_size argument; the st_size the server's stat reports
+    before get/getfo read the file)."""
+    return sorted({h for h in (0, 1, size // 2, size - 1, size + 1, 2 * size + 1) if h >= 0 and h != size})
 
 
 def source(size):
@@ -69,6 +90,30 @@ class TypeSwapServer(SFTPServer):
                 self.swapped = True
                 return SFTPServer._response(self, request_number, CMD_ATTRS, SFTPAttributes())
         return SFTPServer._response(self, request_number, t, *args)
+
+
+class StatSizeIface(SP.ServerIface):
+    """Served directory whose path stat reports another size than the file's reads deliver (the file was
+    appended to / rewritten between the client's stat() and its reads, or the server caches attributes)."""
+    stat_size = None
+
+    def stat(self, path):
+        a = SP.ServerIface.stat(self, path)
+        if isinstance(a, SFTPAttributes) and self.stat_size is not None:
+            a.st_size = self.stat_size
+            self.plan.log.append(("stat-size", self.stat_size))
+        return a
+
+    lstat = stat
+
+
+def stat_size_server(n):
+    iface = type("StatSizeIface%d" % n, (StatSizeIface,), {"stat_size": n})
+
+    class StatSizeServer(SFTPServer):
+        def __init__(self, channel, name, server, sftp_si=None, *a, **kw):
+            SFTPServer.__init__(self, channel, name, server, iface, *a, **kw)
+    return StatSizeServer
 
 
 class EagerChan(SP.Chan):
@@ -110,8 +155,8 @@ class Recorder:
 
 
 # ----------------------------------------------------------------------------- cases
-def nchunks(size):
-    return (size + CHUNK - 1) // CHUNK
+def nchunks(size, req=CHUNK):
+    return (size + req - 1) // req
 
 
 def positions(n, tier, big):
@@ -203,6 +248,74 @@ def cases(tier):
                             for fl in rfaults + (pfaults if prefetch and mc is None and not cb else []):
                                 out.append({"op": op, "size": size, "prefetch": prefetch, "mc": mc, "cb": cb,
                                             "eager": eager, "fault": fl})
+    out += multi_block_cases(tier)
+    out += size_hint_cases(tier)
+    return out
+
+
+def multi_block_cases(tier):
+    """[copy-block dimension] files of one block, one block + 1 byte and two blocks + 7 bytes moved with the
+    unscaled request size: the copy loop of put/putfo/get/getfo runs 1, 2, 3 non-empty iterations.  Every option
+    combination x delivery timing x {no fault, k-th write rejected / k-th read failed / k-th read cut to 3 bytes /
+    answered with a wrong packet type / k-th and later reads failing for every k, stat failing}."""
+    quick = tier == "quick"
+    out = []
+    for size in MULTI_BLOCK_SIZES:
+        n = nchunks(size, BLOCK)
+        wst = [SFTP_FAILURE] if quick else WRITE_STATUSES[tier]
+        rst = [SFTP_FAILURE] if quick else READ_STATUSES[tier]
+        wfaults = [None] + [("write", k, st) for k in range(1, n + 1) for st in wst]
+        for op in ("putfo", "put"):
+            for confirm in (True, False):
+                for cb in (False, True):
+                    for eager in (False, True):
+                        for fl in wfaults + ([("stat", 1, SFTP_FAILURE)] if confirm else []):
+                            out.append({"op": op, "size": size, "confirm": confirm, "cb": cb, "eager": eager,
+                                        "fault": fl, "req": BLOCK})
+        rfaults = [None, ("stat", 1, SFTP_FAILURE)]
+        for k in range(1, n + 2):
+            rfaults += [("read", k, st) for st in rst] + [("short", k, 3), ("swap", k)]
+        pfaults = [("read-onward", k, st) for k in range(1, n + 2) for st in rst]
+        for op in ("getfo", "get"):
+            for prefetch in (True, False):
+                for mc in ((None, 2) if prefetch else (None,)):
+                    for cb in (False, True):
+                        for eager in (False, True):
+                            for fl in rfaults + (pfaults if prefetch and mc is None and not cb else []):
+                                out.append({"op": op, "size": size, "prefetch": prefetch, "mc": mc, "cb": cb,
+                                            "eager": eager, "fault": fl, "req": BLOCK})
+    return out
+
+
+def size_hint_cases(tier):
+    """[size-hint dimension] the size announced for the transfer differs from the number of source bytes:
+    putfo(file_size=h) for every h in size_variants(size) (documented as a value passed to the callback) x source
+    granularity; get/getfo from a server whose stat() reports h while its reads deliver the whole file.  No other
+    fault.  The transfer must still be exact or raise."""
+    out = []
+    small = [0, 1, 7, 8, 9, 24]
+    for size, req in [(sz, CHUNK) for sz in small + [809]] + [(sz, BLOCK) for sz in MULTI_BLOCK_SIZES]:
+        big = size == 809
+        pieces = [None] if req == BLOCK or size == 0 else ([None, 5] if big else [None] + list(SRC_PIECES))
+        for h in size_variants(size):
+            for confirm in (True, False):
+                for cb in (False, True):
+                    for eager in (False, True):
+                        for piece in pieces:
+                            c = {"op": "putfo", "size": size, "confirm": confirm, "cb": cb, "eager": eager,
+                                 "fault": None, "hint": h, "req": req}
+                            if piece:
+                                c["piece"] = piece
+                            out.append(c)
+            for op in ("getfo", "get"):
+                for prefetch in (True, False):
+                    for mc in ((None, 2) if prefetch else (None,)):
+                        for cb in (False, True):
+                            for eager in (False, True):
+                                if big and (op == "get" or cb or mc is not None):
+                                    continue
+                                out.append({"op": op, "size": size, "prefetch": prefetch, "mc": mc, "cb": cb,
+                                            "eager": eager, "fault": None, "stat_size": h, "req": req})
     return out
 
 
@@ -215,6 +328,7 @@ def run_case(case):
     size = case["size"]
     src = source(size)
     fl = case["fault"]
+    SP.scale(case.get("req", CHUNK))
     root = SP.scratch_root()
     served = os.path.join(root, "served")
     os.makedirs(served, exist_ok=True)
@@ -248,6 +362,8 @@ def run_case(case):
             plan.fail_stat_at = (fl[1], fl[2])
         elif fl[0] == "swap":
             server_class = type("SwapServer", (TypeSwapServer,), {"swap_at": fl[1]})
+    if case.get("stat_size") is not None:
+        server_class = stat_size_server(case["stat_size"])
     o = Out()
     o.raised = None
     o.returned = None
@@ -268,7 +384,8 @@ def run_case(case):
             try:
                 if case["op"] == "putfo":
                     fobj = ShortBlockSource(src, case["piece"]) if case.get("piece") else io.BytesIO(src)
-                    a = c.putfo(fobj, NAME, len(src), o.rec, case["confirm"])
+                    hint = len(src) if case.get("hint") is None else case["hint"]
+                    a = c.putfo(fobj, NAME, hint, o.rec, case["confirm"])
                     o.returned = a.st_size
                 elif case["op"] == "put":
                     a = c.put(lpath, NAME, o.rec, case["confirm"])
@@ -341,6 +458,8 @@ def judge(case, o, src):
     if o.outcome != "ok":
         return ("harness:outcome-%s" % o.outcome, {"error": repr(o.error)[:300]})
     if o.raised is not None:
+        if fkind == "no-fault" and (case.get("stat_size") is not None or case.get("hint") is not None):
+            return None      # announced size and delivered bytes disagree: raising is "failing loudly"
         if fkind == "no-fault":
             return ("raises-without-fault:%s:%s" % (fam, type(o.raised).__name__),
                     {"error": repr(o.raised)[:300]})
@@ -361,6 +480,9 @@ def judge(case, o, src):
             extra += ":source-read-returns-short-blocks"
         if fam == "get":
             extra = ":prefetch" if case["prefetch"] else ":no-prefetch"
+        announced = case.get("hint") if fam == "put" else case.get("stat_size")
+        if announced is not None:
+            extra += ":announced-size-%s-than-source" % ("smaller" if announced < len(src) else "larger")
         return ("inexact-without-error:%s:%s:%s%s" % (fam, fkind, cls, extra),
                 {"source_len": len(src), "dest_len": None if o.dest is None else len(o.dest),
                  "first_difference": _first_diff(o.dest or b"", src), "returned": o.returned})
@@ -383,8 +505,13 @@ def run_cases(item, acc):
         o, src = run_case(case)
         acc.ev()
         acc.count("executions")
-        if o.fired or case.get("piece"):
+        announced = case.get("hint") is not None or case.get("stat_size") is not None
+        if o.fired or case.get("piece") or announced or (case.get("req") == BLOCK and case["size"] > BLOCK):
             acc.nt(repr(sorted(case.items(), key=lambda kv: kv[0])))
+        if announced:
+            acc.count("announced_size_differs_from_source")
+        if case.get("req") == BLOCK:
+            acc.count("unscaled_request_size_executions")
         if case.get("piece"):
             acc.count("putfo_from_short_block_source")
         if o.fired:
@@ -393,6 +520,14 @@ def run_cases(item, acc):
         v = judge(case, o, src)
         if v is not None:
             key, detail = v
+            if announced:
+                # minimal input class: the announced-size suffix stays in the key only if the same case with the
+                # true size announced conforms
+                base = {k: x for k, x in case.items() if k not in ("hint", "stat_size")}
+                o2, src2 = run_case(base)
+                v2 = judge(base, o2, src2)
+                if v2 is not None:
+                    key = v2[0]
             detail = dict(detail)
             detail["case"] = case
             detail["server_writes"], detail["server_reads"] = o.writes, o.reads
@@ -414,8 +549,14 @@ def main(tier):
         "delivered the file in short blocks; status dimension = "
         "every SFTP error code (writes 1..8, reads 2..8) at every position of the small files and at the first and "
         "last position of the big ones, representative codes at their inner positions; persistent read failure "
-        "(k-th read and all later ones) with the same code sets for prefetching get/getfo",
-        ["SFTPFile.MAX_REQUEST_SIZE = 8 (class-level configuration); 809 bytes = 102 write requests",
+        "(k-th read and all later ones) with the same code sets for prefetching get/getfo; copy-block dimension = "
+        "sizes 32768/32769/65543 at the unscaled request size (nontrivial also: fault-free transfer of more than one "
+        "32768-byte copy block); size-hint dimension = announced size (putfo file_size / server stat answer) in "
+        "{0,1,half,size-1,size+1,2*size+1} != source size (nontrivial: every such case)",
+        ["SFTPFile.MAX_REQUEST_SIZE = 8 (class-level configuration); 809 bytes = 102 write requests; the "
+         "multi-block sizes (32768, 32769, 65543) use the default 32768",
+         "a stat answer that disagrees with the bytes the reads deliver is an environment answer, not a fault: "
+         "the source bytes of get/getfo are what the server's reads deliver up to EOF",
          "one fault per execution (a persistent read failure counts as one); server otherwise honest (real SFTPServer + default SFTPHandle over /dev/shm)",
          "deterministic default schedule; 'eager' delivery lets the server answer after every client packet so "
          "that sock.recv_ready() is true in SFTPFile._write, 'lazy' only when the client blocks",
@@ -426,7 +567,8 @@ def main(tier):
     cs.sort(key=lambda c: -c["size"])
     items = enum.chunks(cs, core.NCPU * 12)
     ck.merge(core.pmap(items, run_cases))
-    ck.extra["bound"] = {"cases": len(cs)}
+    ck.extra["bound"] = {"cases": len(cs), "multi_block_cases": len(multi_block_cases(tier)),
+                         "size_hint_cases": len(size_hint_cases(tier)), "multi_block_sizes": MULTI_BLOCK_SIZES}
     SP.remove_scratch()
     return ck.finish()
 
